@@ -75,7 +75,12 @@ def run_post_case(impl, case, out):
             step = max(1, n // 7)
             chunks = [body[i:i + step] for i in range(0, n, step)]
         nev = len(w.events)
-        r = peer.post(w, sid, body, declared=declared, chunks=chunks)
+        if case['chunks'] == 'short':
+            # a gateway whose input stream hands over what has arrived so far: the first read returns half of what was asked
+            r = w.http('POST', peer.BASEQ + '&sid=' + sid, body=body, declared=declared, short_first=max(1, min(declared, n) // 2))
+            w.run()
+        else:
+            r = peer.post(w, sid, body, declared=declared, chunks=chunks)
         w.run_until(w.now + HORIZON)
         msgs = [e for e in w.events[nev:] if e[0] == 'message']
         disc = [e for e in w.events[nev:] if e[0] == 'disconnect']
@@ -86,6 +91,11 @@ def run_post_case(impl, case, out):
             if bad:
                 V(out, impl, 'read_beyond_limit', 'declared>%s' % ('L' if declared > L else 'ok'),
                   'wsgi.input.read(%r) with declared=%d limit=%d' % (bad, declared, L), case)
+            elif r.taken > limit:
+                V(out, impl, 'read_beyond_limit', 'short_read', '%d bytes taken from wsgi.input in reads %r with declared=%d limit=%d'
+                  % (r.taken, r.reads, declared, L), case)
+            if case['chunks'] == 'short':
+                return        # what a truncated first read delivers is not judged; only how much is taken from the stream
         else:
             consumed = sum(r.reads)
             needed = 0
@@ -353,7 +363,7 @@ def jobs_for(ctx):
                     continue
                 for declared in declared_for(n, L):
                     for kind in ('text', 'b64'):
-                        for chunks in (('one', 'bytes') if impl == 'async' else ('one',)):
+                        for chunks in (('one', 'bytes') if impl == 'async' else ('one', 'short') if declared > 1 and n > 1 else ('one',)):
                             for poll in (True,) if ctx.quick else (True, False):
                                 jobs.append(('post', impl, {'L': L, 'n': n, 'declared': declared, 'kind': kind,
                                                             'chunks': chunks, 'poll': poll}))
